@@ -443,9 +443,10 @@ bool fault_decide(int dkind)
 // "plain_preempt": 0 off, 1 sparse, 2 dense); every plain access to arena memory by
 // a simulated thread is then a decision point.
 static int g_plain_mode = 0;
+static bool g_plain_armed = false;  // only once the run is multi-threaded (after the generator)
 void plain_access_point(const void* addr)
 {
-    if (!g_plain_mode) return;
+    if (!g_plain_mode || !g_plain_armed) return;
     Thread* t = tl_self;
     if ((long)g_step >= g_s_fault || !g_faults_on) return;
     int chosen = 0;
@@ -852,6 +853,7 @@ static void run_common(const gsim::Workload* w)
     g_faults_on = true;
     g_rw_pref = 0;
     g_plain_mode = 0;
+    g_plain_armed = false;
     g_force_next = -1;
     g_check_races = false;
     g_prio_floor = 0;
@@ -1203,6 +1205,7 @@ int spawn(thread_fn fn, void* arg)
     Thread* t = tl_self;
     RtScope rs(t);
     sched_point(E_SPAWN, nullptr);
+    g_plain_armed = true;
     // reuse the slot of a finished and joined thread if there is one
     Thread* c = nullptr;
     for (int i = 1; i < g_nthreads; i++)
